@@ -642,6 +642,20 @@ fn compile_call(
     }
 }
 
+/// A nested (mod ...) expression comes straight from the frontend: desugar its
+/// lets and lambdas as is done for a toplevel program before generating code.
+pub fn desugar_nested_mod(program: &CompileForm) -> Result<CompileForm, CompileErr> {
+    let (mut hoisted_helpers, hoisted_exp) =
+        hoist_body_let_binding(None, program.args.clone(), program.exp.clone())?;
+    let mut combined_helpers = program.helpers.clone();
+    combined_helpers.append(&mut hoisted_helpers);
+    Ok(CompileForm {
+        helpers: process_helper_let_bindings(&combined_helpers)?,
+        exp: hoisted_exp,
+        ..program.clone()
+    })
+}
+
 pub fn do_mod_codegen(
     context: &mut BasicCompileContext,
     opts: Rc<dyn CompilerOpts>,
@@ -658,7 +672,8 @@ pub fn do_mod_codegen(
         &mut throwaway_symbols,
         optimizer,
     );
-    let code = codegen(&mut context_wrapper.context, without_env, program)?;
+    let desugared = desugar_nested_mod(program)?;
+    let code = codegen(&mut context_wrapper.context, without_env, &desugared)?;
     Ok(CompiledCode(
         program.loc.clone(),
         Rc::new(SExp::Cons(
